@@ -1,8 +1,11 @@
-(* Property C20 (allocator contracts) for the pooled allocator mempool.MemPool.
-   Only statements, each closed by [exact]; proofs live in MemPoolThms/MemPoolWF/MemPoolFrame. *)
+(* Property C20 (allocator contracts) for the three allocators: the pooled allocator mempool.MemPool (first part),
+   the size-aligned allocator mempool.AlignedAllocator and the standard allocator mempool.stdAllocator (second and third part).
+   Only statements, each closed by [exact]; proofs live in MemPoolThms/MemPoolWF/MemPoolFrame (pooled),
+   AllocLemmas/AlignedIndex/AlignedWF/AlignedThms (aligned), StdThms (std). *)
 From Coq Require Import List NArith Arith Bool Lia.
 Import ListNotations.
 Require Import MemPool MemPoolThms MemPoolWF MemPoolFrame.
+Require Import AllocBase AllocLemmas Aligned GenMempool AlignedIndex AlignedWF AlignedThms Std StdThms.
 
 (* reachable: any program, any oracle answers (pool reuse choices, append growth), any pool parameters *)
 Definition reachable (s : st) : Prop := exists bs fs ops, s = fst (run (init bs fs) ops []).
@@ -44,9 +47,155 @@ Example c20_nonvacuous :
 Proof. split. { now exists 64, 4096, [Malloc 10 Fresh 64; Malloc 100 Fresh 128; Free 0; Malloc 20 (Reuse 0) 64]. }
   vm_compute. do 2 eexists. repeat split; try reflexivity. discriminate. Qed.
 
+(* ===================== the size-aligned allocator (mempool.AlignedAllocator, model Aligned.v) =====================
+   areachable: any program of Malloc/Fill/Append/Realloc/Free and any answers of the sync.Pool oracle. A slice is
+   (array id, capacity, length, the whole backing array); sdata = the visible bytes. *)
+
+Theorem c20_aligned_reachable_wf s : areachable s -> AWF s.
+Proof. exact (areachable_AWF s). Qed.
+
+(* two buffers live at the same time never share a backing array *)
+Theorem c20_aligned_no_alias s p q bp bq :
+  areachable s -> p <> q -> hlookup p (hlive s) = Some bp -> hlookup q (hlive s) = Some bq -> sarr bp <> sarr bq.
+Proof. intros R. exact (live_disjoint s p q bp bq (proj1 (areachable_AWF s R))). Qed.
+
+(* a buffer resting in a pool is never live, and its array is not the array of a live buffer *)
+Theorem c20_aligned_pooled_not_live s p q bp bq :
+  areachable s -> hlookup p (hlive s) = Some bp -> hlookup q (hpool s) = Some bq -> p <> q /\ sarr bp <> sarr bq.
+Proof. intros R. exact (live_pool_disjoint s p q bp bq (proj1 (areachable_AWF s R))). Qed.
+
+(* the re-slice of a pooled buffer never exceeds its capacity: no operation panics *)
+Theorem c20_aligned_no_panic s o s' r : areachable s -> astep s o = (s', r) -> r <> APanic.
+Proof. intros R. exact (astep_no_panic s o s' r (areachable_AWF s R)). Qed.
+
+(* Malloc(n) returns a buffer of length n (capacity >= n) *)
+Theorem c20_aligned_malloc_length s n g s' p l c :
+  areachable s -> astep s (AMalloc n g) = (s', APtr p l c) ->
+  l = n /\ n <= c /\ exists b, hlookup p (hlive s') = Some b /\ slen b = n /\ scap b = c /\ length (sdata b) = n.
+Proof. intros R. exact (a_malloc_len s n g s' p l c (areachable_AWF s R)). Qed.
+
+(* Append / AppendString: the previous contents followed by the new bytes (in place or behind a new pointer) *)
+Theorem c20_aligned_append s p more g s' q l c b0 :
+  areachable s -> hlookup p (hlive s) = Some b0 -> astep s (AAppend p more g) = (s', APtr q l c) ->
+  l = slen b0 + length more /\
+  exists b, hlookup q (hlive s') = Some b /\ slen b = l /\ scap b = c /\ sdata b = sdata b0 ++ more.
+Proof. intros R. exact (a_append_content s p more g s' q l c b0 (areachable_AWF s R)). Qed.
+
+(* Realloc: the requested length; the bytes up to min(old length, n) are the old ones. The bytes beyond the old length
+   are whatever the (possibly recycled) array holds: the code does not clear them, so nothing is claimed about them. *)
+Theorem c20_aligned_realloc s p n g s' q l c b0 :
+  areachable s -> hlookup p (hlive s) = Some b0 -> astep s (ARealloc p n g) = (s', APtr q l c) ->
+  l = n /\
+  exists b, hlookup q (hlive s') = Some b /\ slen b = n /\ scap b = c /\ length (sdata b) = n /\
+            firstn (Nat.min (slen b0) n) (sdata b) = firstn (Nat.min (slen b0) n) (sdata b0).
+Proof. intros R. exact (a_realloc_content s p n g s' q l c b0 (areachable_AWF s R)). Qed.
+
+(* Malloc, Fill, Append, Realloc, Free of/for one buffer change no other live buffer (array, capacity, length, all bytes) *)
+Theorem c20_aligned_frame_all s o s' r q b :
+  areachable s -> astep s o = (s', r) -> hlookup q (hlive s) = Some b -> atarget o <> Some q ->
+  hlookup q (hlive s') = Some b.
+Proof. intros R. exact (a_frame s o s' r q b (areachable_AWF s R)). Qed.
+
+(* the tie to the code (GenMempool.v is dumped from the real tables before every build): the model's bucket index is
+   alignedIndexes[size] for every index of the table, the constants agree, every bucket's New() builds its bucket size,
+   and the model's Free guard is the code's guard for every capacity *)
+Theorem c20_aligned_index_table size :
+  (N.of_nat size < gen_table_len)%N -> N.of_nat (aidx size) = rle_get gen_index_runs (N.of_nat size).
+Proof. exact (aidx_table size). Qed.
+
+Theorem c20_aligned_consts :
+  N.of_nat max_aligned = gen_max_aligned /\ (N.of_nat min_aligned = gen_min_mask + 1)%N /\
+  N.of_nat nbuckets = gen_bucket_num /\ (gen_table_len = gen_max_aligned + 1)%N /\ rle_len gen_index_runs = gen_table_len /\
+  map (fun i => (N.of_nat (bsize i), N.of_nat (bsize i))) (seq 0 nbuckets) = gen_new_caps.
+Proof. exact aligned_consts. Qed.
+
+Theorem c20_aligned_free_guard c : poolable c = negb (go_ignored (N.of_nat c)).
+Proof. exact (poolable_guard c). Qed.
+
+(* non-vacuity: a program whose Malloc recycles a pooled array (pointer 2 on array 0), whose Append stays in place and
+   whose Realloc moves to a bigger bucket, ends with two live buffers on different arrays and two pooled ones *)
+Definition aligned_prog : list aop :=
+  [AMalloc 10 PFresh; AMalloc 100 PFresh; AFree 0; AMalloc 20 (PReuse 0); AFill 2 (repeat 7%N 20);
+   AAppend 2 [1%N; 2%N; 3%N] PFresh; ARealloc 2 200 PFresh; AFree 1; AMalloc 128 (PReuse 1)].
+Example c20_aligned_nonvacuous :
+  let s := fst (arun ainit aligned_prog []) in
+  areachable s /\
+  exists b3 b4, hlookup 3 (hlive s) = Some b3 /\ hlookup 4 (hlive s) = Some b4 /\ sarr b3 <> sarr b4 /\
+                scap b3 = 256 /\ sdata b3 = firstn 200 (repeat 7%N 20 ++ [1%N; 2%N; 3%N] ++ repeat 0%N 233) /\
+                sarr b4 = 1 /\ length (hpool s) = 1 /\
+                snd (arun ainit aligned_prog []) =
+                  [APtr 0 10 32; APtr 1 100 128; AUnit; APtr 2 20 32; AUnit; APtr 2 23 32; APtr 3 200 256; AUnit; APtr 4 128 128].
+Proof. split. { now exists aligned_prog. }
+  vm_compute. do 2 eexists. repeat split; try reflexivity. discriminate. Qed.
+
+(* ===================== the standard allocator (mempool.stdAllocator, model Std.v) =====================
+   sreachable: any program and any capacity answers of append's growth. *)
+
+Theorem c20_std_reachable_wf s : sreachable s -> SWF s.
+Proof. exact (sreachable_SWF s). Qed.
+
+Theorem c20_std_no_alias s p q bp bq :
+  sreachable s -> p <> q -> hlookup p (hlive s) = Some bp -> hlookup q (hlive s) = Some bq -> sarr bp <> sarr bq.
+Proof. intros R. exact (live_disjoint s p q bp bq (proj1 (sreachable_SWF s R))). Qed.
+
+(* nothing is ever pooled: a released buffer is never handed out again *)
+Theorem c20_std_nothing_pooled s : sreachable s -> hpool s = [].
+Proof. intros R. exact (proj2 (sreachable_SWF s R)). Qed.
+
+Theorem c20_std_malloc_length s n s' p l c :
+  sstep s (SMalloc n) = (s', APtr p l c) ->
+  l = n /\ c = n /\ exists b, hlookup p (hlive s') = Some b /\ slen b = n /\ scap b = n /\ length (sdata b) = n /\ sdata b = zbytes n.
+Proof. exact (s_malloc_len s n s' p l c). Qed.
+
+Theorem c20_std_append s p more nc s' q l c b0 :
+  sreachable s -> hlookup p (hlive s) = Some b0 -> sstep s (SAppend p more nc) = (s', APtr q l c) ->
+  q = p /\ l = slen b0 + length more /\
+  exists b, hlookup p (hlive s') = Some b /\ slen b = l /\ scap b = c /\ sdata b = sdata b0 ++ more.
+Proof. intros R. exact (s_append_content s p more nc s' q l c b0 (sreachable_SWF s R)). Qed.
+
+Theorem c20_std_realloc s p n s' q l c b0 :
+  sreachable s -> hlookup p (hlive s) = Some b0 -> sstep s (SRealloc p n) = (s', APtr q l c) ->
+  l = n /\
+  exists b, hlookup q (hlive s') = Some b /\ slen b = n /\ scap b = c /\ length (sdata b) = n /\
+            firstn (Nat.min (slen b0) n) (sdata b) = firstn (Nat.min (slen b0) n) (sdata b0).
+Proof. intros R. exact (s_realloc_content s p n s' q l c b0 (sreachable_SWF s R)). Qed.
+
+Theorem c20_std_frame_all s o s' r q b :
+  sreachable s -> sstep s o = (s', r) -> hlookup q (hlive s) = Some b -> starget o <> Some q ->
+  hlookup q (hlive s') = Some b.
+Proof. intros R. exact (s_frame s o s' r q b (sreachable_SWF s R)). Qed.
+
+Definition std_prog : list sop :=
+  [SMalloc 4; SFill 0 [9%N; 8%N; 7%N; 6%N]; SMalloc 0; SAppend 1 [1%N; 2%N] 8; SAppend 0 [5%N] 16; SRealloc 0 2; SRealloc 0 40; SFree 1].
+Example c20_std_nonvacuous :
+  let s := fst (srun sinit std_prog []) in
+  sreachable s /\
+  exists b, hlookup 2 (hlive s) = Some b /\ sdata b = [9%N; 8%N] ++ repeat 0%N 38 /\ length (hlive s) = 1 /\
+            snd (srun sinit std_prog []) =
+              [APtr 0 4 4; AUnit; APtr 1 0 0; APtr 1 2 8; APtr 0 5 16; APtr 0 2 16; APtr 2 40 40; AUnit].
+Proof. split. { now exists std_prog. } vm_compute. eexists. repeat split; reflexivity. Qed.
+
 Print Assumptions c20_reachable_wf.
 Print Assumptions c20_no_alias.
 Print Assumptions c20_malloc_length.
 Print Assumptions c20_append.
 Print Assumptions c20_realloc.
 Print Assumptions c20_frame_all.
+Print Assumptions c20_aligned_reachable_wf.
+Print Assumptions c20_aligned_no_alias.
+Print Assumptions c20_aligned_pooled_not_live.
+Print Assumptions c20_aligned_no_panic.
+Print Assumptions c20_aligned_malloc_length.
+Print Assumptions c20_aligned_append.
+Print Assumptions c20_aligned_realloc.
+Print Assumptions c20_aligned_frame_all.
+Print Assumptions c20_aligned_index_table.
+Print Assumptions c20_aligned_consts.
+Print Assumptions c20_aligned_free_guard.
+Print Assumptions c20_std_reachable_wf.
+Print Assumptions c20_std_no_alias.
+Print Assumptions c20_std_nothing_pooled.
+Print Assumptions c20_std_malloc_length.
+Print Assumptions c20_std_append.
+Print Assumptions c20_std_realloc.
+Print Assumptions c20_std_frame_all.
